@@ -359,8 +359,8 @@ func Pair(t *rapid.T, c core.Ctx, op string) (x, y core.Dec) {
 				n = 1
 			}
 			lead := []string{"9", "5", "18446744073709551615", "9223372036854775807", "1844674407370955161"}[Pick(t, 5, "tslead")]
-			xs := DigitsN(t, n, 0, "tsx")
-			if len(lead) <= n && Pick(t, 2, "tsuse") == 0 {
+			xs := DigitsN(t, n, 9, "tsx") // random digits
+			if len(lead) <= len(xs) && Pick(t, 2, "tsuse") == 0 {
 				xs = lead + xs[len(lead):]
 			}
 			xb, _ := new(big.Int).SetString(xs, 10)
